@@ -49,6 +49,9 @@ type branchDesc struct {
 	EcsForward    bool     `json:"ecs_handler_forward"`    // inside every branch
 	OuterFwd      bool     `json:"outer_forward_edns0opt"` // the same forward_edns0opt also in front of the copying plugin
 	PostTTL       string   `json:"post_ttl,omitempty"`
+	// replace family (replace.go): responders executed one after the other on ONE context
+	Steps       []rstep `json:"steps,omitempty"`
+	SecondFwdAt int     `json:"second_forwarder_before_step,omitempty"` // with OuterFwd: where the second forward_edns0opt sits
 }
 
 func (b *branchDesc) named() map[uint16]bool {
@@ -81,6 +84,9 @@ func (b *branchDesc) forwarders(code uint16) int {
 
 func (b *branchDesc) sig() string {
 	s := b.Kind
+	if b.Kind == "replace" {
+		return b.replaceSig()
+	}
 	if b.Kind == "fallback" {
 		s += fmt.Sprintf("(standby=%v)", b.AlwaysStandby)
 	}
@@ -117,7 +123,7 @@ type exchange struct {
 	Options []wire.Option `json:"options"`
 }
 
-var branchIDs = map[string]byte{"main": 1, "primary": 2, "secondary": 3}
+var branchIDs = map[string]byte{"main": 1, "primary": 2, "secondary": 3, "up0": 4, "up1": 5, "up2": 6, "up3": 7}
 
 // originOption builds an option of the given code whose payload names the exchange.
 func originOption(code uint16, seq, caseIdx int, branch string, qtype uint16) wire.Option {
@@ -185,6 +191,9 @@ var branchCodes = []uint16{65001, 10, 12, 15, 65002}
 
 func genBranchChain(seed int64, idx, ncases int) *chainDesc {
 	r := rand.New(rand.NewSource(seed*1000003 + int64(idx)*7919 + 23))
+	if idx >= replaceIdxBase {
+		return genReplaceChain(r, seed, idx, ncases)
+	}
 	b := &branchDesc{}
 	switch idx % 4 {
 	case 0:
@@ -222,6 +231,9 @@ func genBranchCase(r *rand.Rand, ch *chainDesc, idx, phase int, names []string) 
 	b := ch.Branch
 	c := &clientCase{Idx: idx, Phase: phase, Qclass: 1, ID: uint16(r.Intn(65536)), Flags: 0x0100}
 	c.Name = names[idx%len(names)] // round robin: consecutive cases never share a cache key
+	if b.Kind == "replace" {
+		c.Name = names[r.Intn(len(names))]
+	}
 	switch b.Kind {
 	case "dual4":
 		c.Qtype = []uint16{28, 28, 28, 1, 16}[r.Intn(5)]
@@ -274,6 +286,8 @@ func genBranchCase(r *rand.Rand, ch *chainDesc, idx, phase int, names []string) 
 	fail := func() bScript { return bScript{Fail: []string{"error", "noresp"}[r.Intn(2)], TTL: 60} }
 	c.Script = map[string]bScript{}
 	switch b.Kind {
+	case "replace":
+		genReplaceScript(r, b, c, ok, fail)
 	case "dual4", "dual6":
 		pref := uint16(1)
 		if b.Kind == "dual6" {
@@ -379,6 +393,7 @@ func (b *bmark) Exec(ctx context.Context, qCtx *query_context.Context, next sequ
 type bterm struct {
 	cr     *chainRun
 	branch string
+	always bool // replace family: queries its upstream whatever R() holds, like forward does
 }
 
 func (t *bterm) Exec(ctx context.Context, qCtx *query_context.Context) error {
@@ -389,7 +404,7 @@ func (t *bterm) Exec(ctx context.Context, qCtx *query_context.Context) error {
 	b := t.cr.desc.Branch
 	bg := b.Kind == "lazy" && !fg
 	run.signal(t.branch + "-called")
-	if r := qCtx.R(); r != nil {
+	if r := qCtx.R(); r != nil && !t.always {
 		if !bg {
 			run.mu.Lock()
 			run.hitAtTerm = true
@@ -530,6 +545,11 @@ func buildBranchChain(desc *chainDesc) (*chainRun, error) {
 		rules = append(rules, sequence.RuleArgs{Exec: fwdRule})
 	}
 	switch b.Kind {
+	case "replace":
+		var err error
+		if rules, err = cr.buildReplaceRules(plugins, newPlugin, fwdRule); err != nil {
+			return nil, err
+		}
 	case "dual4", "dual6":
 		rules = append(rules, sequence.RuleArgs{Exec: map[string]string{"dual4": "prefer_ipv4", "dual6": "prefer_ipv6"}[b.Kind]})
 		rules = append(rules, branchRules("main")...)
@@ -737,6 +757,9 @@ func runBranchChain(desc *chainDesc) {
 			pool.ReleaseBuf(payload)
 		}
 		relayed, rcode := cr.checkBranchReply(run, reply)
+		if b.Kind == "replace" {
+			cr.replaceEvidence(run, reply)
+		}
 		rep.Count("branch_cases", 1)
 		rep.Count("branch_relayed:"+b.Kind+":"+relayed, 1)
 		if c.Opt != nil {
@@ -760,7 +783,7 @@ func runBranchChain(desc *chainDesc) {
 			rep.Sample(cr.witness(run, map[string]any{"reply_to_client": hex.EncodeToString(reply), "exchanges": exch, "relayed": relayed}))
 		}
 	}
-	if b.Kind == "lazy" {
+	if b.Kind == "lazy" || (b.Kind == "replace" && len(desc.Pre) > 0) {
 		cr.checkDumps("end of chain")
 	}
 }
